@@ -941,6 +941,9 @@ func c15Record(env *Env) {
 			sc = "unrelated"
 		case 2: // low complexity: repeated words, counts above one
 			unit := g.seq(1 + g.rng.Intn(3))
+			if e == 2 {
+				unit = []byte("t") // the last word of the table (tttt, code 255) is always exercised
+			}
 			a = []byte(strings.Repeat(string(unit), 4+g.rng.Intn(20)))
 			b = g.edits(a, g.rng.Intn(3), g.rng.Intn(2), g.rng.Intn(2))
 			sc = "repeats"
